@@ -15,6 +15,7 @@ from pathlib import Path
 
 EVENTS = []
 ROOT = None
+FILE_TYPE = {'<other>': 'no-such-format'}
 
 
 def rel(p):
@@ -68,6 +69,45 @@ def traced_exists(self, *a, **k):
 
 
 Path.exists = traced_exists
+_os_path_exists = os.path.exists
+
+
+def traced_os_path_exists(path):
+    res = _os_path_exists(path)
+    r = rel(path) if isinstance(path, (str, os.PathLike)) else None
+    if r is not None and not os.path.isdir(str(path)):
+        EVENTS.append('G ' + r)
+    return res
+
+
+os.path.exists = traced_os_path_exists
+
+
+# removing / moving files (Path.unlink, Path.replace, Path.rename and
+# shutil.move go through these)
+def _traced_remove(orig):
+    def f(path, *a, **k):
+        r = rel(path) if isinstance(path, (str, os.PathLike)) else None
+        if r is not None:
+            EVENTS.append('D ' + r)
+        return orig(path, *a, **k)
+    return f
+
+
+def _traced_move(orig):
+    def f(src, dst, *a, **k):
+        rs = rel(src) if isinstance(src, (str, os.PathLike)) else None
+        rd = rel(dst) if isinstance(dst, (str, os.PathLike)) else None
+        if rs is not None or rd is not None:
+            EVENTS.append(f'M {rs} -> {rd}')
+        return orig(src, dst, *a, **k)
+    return f
+
+
+os.unlink = _traced_remove(os.unlink)
+os.remove = _traced_remove(os.remove)
+os.rename = _traced_move(os.rename)
+os.replace = _traced_move(os.replace)
 
 
 # ---- stubs for absent third-party writers -------------------------------
@@ -141,6 +181,23 @@ def build_mesh(kind):
             [[0., 0, 0], [1, 0, 0], [0, 1, 0]]))
         elements = FEMElementalAttribute('ELEMENT', {
             'tri': FEMAttribute('tri', np.array([7]), np.array([[3, 5, 9]]))})
+    elif kind == 'mixed_shell':
+        nodes = FEMAttribute('NODE', np.array([3, 5, 9, 12, 20]), np.array(
+            [[0., 0, 0], [1, 0, 0], [1, 1, 0], [0, 1, 0], [2, 0.5, 0]]))
+        elements = FEMElementalAttribute('ELEMENT', {
+            'quad': FEMAttribute('quad', np.array([7]), np.array([[3, 5, 9, 12]])),
+            'tri': FEMAttribute('tri', np.array([4]), np.array([[5, 20, 9]]))})
+    elif kind == 'hexprism':
+        # a unit hex with a prism glued on its x = 1 face: the surface mixes tri and quad
+        nodes = FEMAttribute('NODE', np.arange(11, 21), np.array([
+            [0., 0., 0.], [1., 0., 0.], [1., 1., 0.], [0., 1., 0.],
+            [0., 0., 1.], [1., 0., 1.], [1., 1., 1.], [0., 1., 1.],
+            [2., 0., .5], [2., 1., .5]]))
+        elements = FEMElementalAttribute('ELEMENT', {
+            'hex': FEMAttribute('hex', np.array([5]),
+                                np.array([[11, 12, 13, 14, 15, 16, 17, 18]])),
+            'prism': FEMAttribute('prism', np.array([7]),
+                                  np.array([[12, 16, 19, 13, 17, 20]]))})
     else:
         nodes = FEMAttribute('NODE', np.array([3, 5, 9, 12]), np.array(
             [[0., 0, 0], [1, 0, 0], [0, 1, 0], [0, 0, 1]]))
@@ -166,9 +223,39 @@ def main():
         if root.exists():
             shutil.rmtree(root)
         root.mkdir(parents=True)
+        content = c.get('content', 'marker')
+        same = {}
+        if content in ('same', 'same-crlf') and c['pre']:
+            # what a write of this very object into an empty directory produces
+            ref = work / f"ref{c['id']}"
+            if ref.exists():
+                shutil.rmtree(ref)
+            ref.mkdir(parents=True)
+            cwd0 = os.getcwd()
+            so0 = sys.stdout
+            sys.stdout = devnull
+            os.chdir(ref)
+            try:
+                build_mesh(c.get('mesh', 'solid')).write(c['format'], c['name'],
+                                                         **dict(c.get('kwargs', {})))
+            except Exception:  # noqa
+                pass
+            finally:
+                os.chdir(cwd0)
+                sys.stdout = so0
+            for q in c['pre']:
+                if (ref / q).is_file():
+                    b = (ref / q).read_bytes()
+                    same[q] = b.replace(b'\n', b'\r\n') if content == 'same-crlf' else b
+            shutil.rmtree(ref)
         for q in c['pre']:
             (root / q).parent.mkdir(parents=True, exist_ok=True)
-            (root / q).write_bytes(b'PRE-EXISTING ' + q.encode())
+            if content == 'empty':
+                (root / q).write_bytes(b'')
+            elif q in same:
+                (root / q).write_bytes(same[q])
+            else:
+                (root / q).write_bytes(b'PRE-EXISTING ' + q.encode())
         fd = build_mesh(c.get('mesh', 'solid'))
         before = snapshot(root)
         ROOT = os.path.abspath(str(root))
@@ -181,13 +268,13 @@ def main():
         os.chdir(root)
         try:
             kw = dict(c.get('kwargs', {}))
-            fd.write(c['format'], c['name'], **kw)
+            fd.write(FILE_TYPE.get(c['format'], c['format']), c['name'], **kw)
             if c.get('second_call'):
                 # same object, same name again: must raise or at least change nothing
                 first_events = list(EVENTS)
                 mid = snapshot(root)
                 try:
-                    fd.write(c['format'], c['name'], **kw)
+                    fd.write(FILE_TYPE.get(c['format'], c['format']), c['name'], **kw)
                     r2 = 0
                 except Exception:  # noqa
                     r2 = 1
@@ -208,8 +295,25 @@ def main():
         results.append({'id': c['id'], 'raised': raised, 'exc': exc, 'events': events,
                         'changed': changed, 'new': new, 'second': second})
         shutil.rmtree(root)
+    pathfun = []
+    if cases.get('pathfun'):
+        import femio
+        fd = build_mesh('solid')
+        for name, ext, suf, sib in cases['pathfun']:
+            row = {}
+            try:
+                row['addext'] = str(fd.add_extension_if_needed(Path(name), ext))
+            except Exception as e:  # noqa
+                row['addext'] = None
+            try:
+                row['with_suffix'] = str(Path(name).with_suffix(suf))
+            except Exception:  # noqa
+                row['with_suffix'] = None
+            row['sibling'] = str(Path(name).parent / sib)
+            row['suffix'] = str(Path(str(Path(name)) + suf))
+            pathfun.append(row)
     with _open(cases['out'], 'w') as f:
-        json.dump(results, f)
+        json.dump({'results': results, 'pathfun': pathfun}, f)
 
 
 if __name__ == '__main__':
